@@ -4,6 +4,12 @@ NOTES = ("All checks: bin/check <ID> --tier quick|thorough. Exit 0 held / 1 VIOL
          "Specification in spec/, harness in harness/, known findings in known_findings.jsonl; see DESIGN.md.")
 NOT_APPLICABLE = {}
 CHECKS = {
+    "C09": {
+        "level": "model_checking",
+        "technique": "TLA+ MapMachine spec: equality as classes of 45 representative values (TLC checks reflexive/symmetric/transitive once) and the map as a machine over association sequences (set/remove/merge/nested set/deep-merge) whose reachable states TLC checks for unique keys and order preservation at every step; TLC enumerates all ordered pairs (MC_Equality) and all operation sequences up to a bound (MC_Maps); grass evaluates each probe program; results compared with the specification",
+        "text": "All 2025 ordered pairs through == != index map-has-key map-get map-remove map-merge map.set and literal-map duplicate rejection must agree with one equality bit; all sequences of <= 3 (thorough 4) map operations over keys with two equal spellings each (strings, lengths, colours) and nested maps must leave exactly the machine's association sequence as seen by inspect, map-keys, map-values and @each.",
+        "note": "The universe is a finite set of representatives; the empty list / empty map pair is left open; texts compared ignoring spaces.",
+    },
     "C07": {
         "level": "model_checking",
         "technique": "TLA+ Decimal spec (exact rationals; printing by long division to 10 fractional digits with the admissible neighbours at and near ties; no exponent/trailing zeros/+/-0; compressed leading zero) enumerated by TLC (MC_Numbers: quotient lattice, literal spellings and short decimal arithmetic, tolerance comparisons, modulo sign table, division by zero, truths of the math functions); plus trace validation (Trace_Numbers): for seeded literals and + - * / of literals the harness supplies the exact expansion of the IEEE double and TLC checks that grass printed exactly its correctly rounded 10-digit text",
